@@ -262,6 +262,57 @@ def run(chk):
                'they are re-validated on every run')
 
 
+    # ---- L9: one shadow element per missing child
+    chk.rule('C11-L9', 'lazy creation happens only after both the real list and the shadow list were found empty: a read and a later '
+                       'write through the same missing child use the same shadow element, so the path is created once')
+    nl9 = 0
+    lazy_ = tf.lazy_creators(c)
+    l9_owners = set()
+    for fq_ in sorted(cg.sites):
+        fi_ = ix.functions.get(fq_)
+        if fi_ is None:
+            continue
+        for s_ in cg.sites[fq_]:
+            if s_.kind == 'call' and any(t.kind == 'func' and t.func is ce for t in s_.targets):
+                # the proxy's creations: in the lazy-creation code, or made on the proxy's delegate (`<proxy>.element_list`)
+                recv_ = s_.node.func.value if isinstance(s_.node.func, ast.Attribute) else None
+                if not (fq_ in lazy_ or (isinstance(recv_, ast.Attribute) and recv_.attr == 'element_list')):
+                    continue
+                nl9 += 1
+                l9_owners.add(fq_)
+                looked = set()
+                p_ = s_.node
+                while getattr(p_, '_parent', None) is not None and p_ is not fi_.node:
+                    par_ = p_._parent
+                    if isinstance(par_, ast.ExceptHandler):
+                        tr_ = par_._parent
+                        if isinstance(tr_, ast.Try):
+                            for x_ in ast.walk(ast.Module(body=tr_.body, type_ignores=[])):
+                                if isinstance(x_, ast.Attribute) and x_.attr in ('list', 'traversal_list'):
+                                    looked.add(x_.attr)
+                    p_ = par_
+                # the same through tests: `if not self.list and not self.traversal_list`
+                p_ = s_.node
+                while getattr(p_, '_parent', None) is not None and p_ is not fi_.node:
+                    par_ = p_._parent
+                    if isinstance(par_, ast.If):
+                        for x_ in ast.walk(par_.test):
+                            if isinstance(x_, ast.Attribute) and x_.attr in ('list', 'traversal_list'):
+                                looked.add(x_.attr)
+                    p_ = par_
+                ok_ = {'list', 'traversal_list'} <= looked
+                chk.ob('C11-L9', '%s creates only when no real and no shadow child exists' % fq_, ok_,
+                       'the creation is not guarded by a failed look-up in %s: an existing shadow element (created by an earlier read) '
+                       'is ignored and a second one is created and later promoted' % sorted({'list', 'traversal_list'} - looked),
+                       '%s:%d' % (fi_.module.relpath, s_.lineno), key='C11-L9|%s' % fq_)
+    chk.floor('lazy creation sites examined for shadow reuse', nl9, 1)
+    for acc_ in ('__getattr__', '__setattr__'):
+        fi_ = ix.func('core.ElementProxy.%s' % acc_)
+        callees_ = {t.func.qualname for s_ in cg.sites.get(fi_.qualname, ()) for t in s_.targets if t.kind == 'func'}
+        if not ({fi_.qualname} | callees_) & l9_owners:
+            raise AnalysisError('ElementProxy.%s: the lazy creation it performs was not found (neither in the method nor in a '
+                                'function it calls directly)' % acc_)
+
     # ---- L8: the constructor chain hands parent / traversal_parent up to Element.__init__
     chk.rule('C11-L8', 'every element constructor passes the parent and the traversal parent it was given to its base constructor '
                        '(a lazily created element that loses its traversal parent can never be promoted: the write is lost)')
